@@ -495,6 +495,21 @@ func TestInstanceDeliveryRapid(t *testing.T) {
 			}
 			updates = append(updates, d)
 		}
+		// entries that have never heartbeated (timestamp 0, not removed), under names of their own: no merge
+		// ever takes such an entry from a peer, whatever the receiver holds - an empty receiver included -
+		// so the replicas end up as if the updates did not carry them
+		stripped := updates
+		if epoch == 0 && rapid.IntRange(0, 3).Draw(rt, "neverHeartbeated") == 0 {
+			stripped = nil
+			for u, d := range updates {
+				stripped = append(stripped, model.CloneDesc(d))
+				if u == 0 || rapid.Bool().Draw(rt, "carriesOne") {
+					id := fmt.Sprintf("nohb-%d", rapid.IntRange(0, 2).Draw(rt, "nohb"))
+					d.Ingesters[id] = ring.InstanceDesc{Id: id, Addr: id + ":1", State: ring.InstanceState(rapid.IntRange(0, 1).Draw(rt, "nohbState")) * 2, Tokens: []uint32{uint32(4000000000 + u)}}
+				}
+			}
+			vx.Class("update_sets_carrying_entries_that_never_heartbeated", 1)
+		}
 		deliveries := genDeliveries(rt, nUpd)
 		vx.Eval(1)
 		conflict := false
@@ -515,7 +530,7 @@ func TestInstanceDeliveryRapid(t *testing.T) {
 			}()))
 		}
 		var want any = ring.NewDesc()
-		for _, u := range updates {
+		for _, u := range stripped {
 			want = instAlg.join(want, any(u))
 		}
 		var first string
